@@ -129,7 +129,7 @@ class C03(core.Check):
     required_buckets = {b: 3 for b in ['s:0', 's:<first', 's:=first', 's:mid-line', 's:in-gap', 's:>last', 's:=last',
                                        'e:absent', 'e:=last', 'e:mid-line', 'e:in-gap', 'e:>last', 'e:=last+1',
                                        'e:mid-line/same-line', 'last:byte', 'last:label', 'last:muted', 'last:zero-length',
-                                       'last:org', 'fill!=0', 'predefined-data', 'muted-region', 'stale-longer-image-present']}
+                                       'last:org', 'fill!=0', 'predefined-data', 'muted-region', 'stale-longer-image-present', 'mute-around-include']}
 
     def make_case(self, isa, lines, res, lk, s, e, fill, tags):
         fn, text = isamod.render_isa(isa, 'json')
@@ -179,6 +179,37 @@ class C03(core.Check):
                 if any(l.get('muted') and l['k'] in layout.BYTE_KINDS for l in lines):
                     tags.append('muted-region')
                 yield self.make_case(isa, lines, res, lk, s, e, fill, tags)
+        # muting that is entered, left or deepened around an #include: the addresses of muted bytes get the fill value
+        isa_i = gen_prog.layout_isa(16)
+        fn_i, text_i = isamod.render_isa(isa_i, 'json')
+        inc_variants = {'plain': ['.byte $22'], 'unmutes-once': ['.byte $22', '#unmute', '.byte $23'], 'mutes-once': ['.byte $22', '#mute', '.byte $23'],
+                        'balanced': ['#mute', '.byte $22', '#unmute', '.byte $23']}
+        for depth in (0, 1, 2, 3):
+            for vname, inc in inc_variants.items():
+                for after in (0, 1, 2):
+                    for fill in (0xFF, 0):
+                        main = ['.byte $11'] + ['#mute'] * depth + ['#include "m.asm"', '.byte $31']
+                        for k_ in range(after):
+                            main += ['#unmute', f'.byte ${0x41 + k_:02x}']
+                        main += ['#unmute'] * 4 + ['.byte $7e']
+                        flat = []
+                        for t_ in main:
+                            flat += inc if t_.startswith('#include') else [t_]
+                        mc, out = 0, []
+                        for t_ in flat:
+                            if t_ == '#mute':
+                                mc += 1
+                            elif t_ == '#unmute':
+                                mc = max(0, mc - 1)
+                            else:
+                                out.append(int(t_.split('$')[1], 16) if mc == 0 else fill)
+                        argv = ['compile', '-c', fn_i, 'p.asm', '-o', 'out.bin'] + (['-f', str(fill)] if fill else [])
+                        yield {'runs': [{'files': {fn_i: text_i, 'p.asm': '\n'.join(main) + '\n', 'm.asm': '\n'.join(inc) + '\n'},
+                                         'argv': argv, 'probes': ['steps', 'files'], 'step_limit': 200000}],
+                               'meta': {'expected': bytes(out).hex(), 'kind': 'ACCEPT', 'why': '', 'window': [0, None, fill],
+                                        'M': {str(a_): v_ for a_, v_ in enumerate(out)}},
+                               'tags': ['s:0', 'e:absent', 'muted-region', 'mute-around-include', f'include-at-mute-depth:{depth}'] +
+                                       (['fill!=0'] if fill else [])}
         if tier == 'thorough':
             for p in range(20):
                 rng = core.rng_for(0, self.pid, 'grid', p)
